@@ -172,6 +172,9 @@ def step (st : St) (pre post : List String) : St × Verdict :=
         else "-1 ~"
       (st, judge "getversioned" line specS modelS impl)
     | _, _ => (st, .bad "getv args")
+  | ["getimm", _] =>
+    -- only written when `GetImmutable` itself panicked
+    (st, .propfail "impl-panic" s!"{line} => {impl}")
   | ["vers"] => (st, judge "available-versions" line (specVersions st.spec) (modelVersions st.tree) impl)
   | ["get", tg, k] =>
     match parseTarget tg, parseKey k with
